@@ -1,9 +1,11 @@
 //! Obligations, one module per property.
+pub mod c03;
 pub mod c07;
 pub mod c12;
 pub mod c14;
 pub mod c15;
 pub mod c16;
+pub mod c17;
 pub mod gen_error_variants;
 
 /// Shortest round-trip decimal literal of a float in a spelling the SCPI lexer accepts as <NRf>.
